@@ -275,6 +275,18 @@ def build_test(rs, root, label, obs_mode, N):
     # ---- exact clauses on every drawn row
     if fp1 != fp0:
         t["exact"].append("sample() changed the circuit it was called on (parameters, ids or node objects differ afterwards)")
+    # the same contract whatever the memory layout of the batch (column-major, single row, read-only, float64)
+    ro = X[:4].copy(); ro.setflags(write=False)
+    for lay, Xa in (("F-order", np.asfortranarray(X[:6])), ("single-row", X[:1].copy()), ("read-only", ro), ("float64", X[:4].astype(np.float64))):
+        Xa0 = np.array(Xa, copy=True)
+        try:
+            Ya = sample(root, Xa)
+            if np.shares_memory(Ya, Xa) or not np.array_equal(np.asarray(Xa), Xa0, equal_nan=True):
+                t["exact"].append(f"{lay} batch: the caller's storage was written or returned although inplace=False")
+            elif Ya.shape != Xa0.shape or np.isnan(Ya[:, miss]).any() or not np.array_equal(np.asarray(Ya)[:, obs], Xa0[:, obs]):
+                t["exact"].append(f"{lay} batch: missing cells left unfilled or evidence changed")
+        except Exception as e:
+            t["exact"].append(f"{lay} batch: sample raised {type(e).__name__}: {e}")
     t["mixed_batch"] = sel is not None
     if Y.shape != X.shape:
         t["exact"].append("output shape differs from input shape"); return t
